@@ -3639,8 +3639,17 @@ void space_text()
                bool kw1 = CharTable::IsKw2(pc->GetStr()[pc->Len() - 1]);
                bool kw2 = CharTable::IsKw1(next->GetStr()[0]);
 
-               if (  kw1
-                  && kw2)
+               if (  pc->GetStr()[pc->Len() - 1] == '/'
+                  && (  next->GetStr()[0] == '*'
+                     || next->GetStr()[0] == '/'))
+               {
+                  // a '/' directly followed by '*' or '/' would open a comment: 'a / *p', 'a / /* c */ b'
+                  LOG_FMT(LSPACE, "%s(%d): would open a comment: pc->Text() '%s', next->Text() '%s'\n",
+                          __func__, __LINE__, pc->Text(), next->Text());
+                  pc->SetFlagBits(PCF_FORCE_SPACE);
+               }
+               else if (  kw1
+                       && kw2)
                {
                   // back-to-back words need a space
                   LOG_FMT(LSPACE, "%s(%d): back-to-back words need a space: pc->Text() '%s', next->Text() '%s'\n",
